@@ -830,3 +830,1805 @@ impl Rt for J {
         ]
     }
 }
+
+// --- chrono -------------------------------------------------------------------
+
+impl Rt for chrono::NaiveDate {
+    const VARIANT: &'static str = "ChronoDate";
+    fn name() -> String {
+        "NaiveDate".into()
+    }
+    fn same(&self, o: &Self) -> bool {
+        self.num_days_from_ce() == o.num_days_from_ce()
+    }
+    fn fp(&self) -> u64 {
+        self.num_days_from_ce() as u64
+    }
+    fn gen(r: &mut Rng) -> Self {
+        gen_ndate(r, 0)
+    }
+    fn specials() -> Vec<Self> {
+        vec![chrono::NaiveDate::default(), chrono::NaiveDate::MIN, chrono::NaiveDate::MAX]
+    }
+}
+
+fn ntime_key(t: &chrono::NaiveTime) -> u64 {
+    ((t.num_seconds_from_midnight() as u64) << 32) | t.nanosecond() as u64
+}
+
+impl Rt for chrono::NaiveTime {
+    const VARIANT: &'static str = "ChronoTime";
+    fn name() -> String {
+        "NaiveTime".into()
+    }
+    fn same(&self, o: &Self) -> bool {
+        ntime_key(self) == ntime_key(o)
+    }
+    fn fp(&self) -> u64 {
+        ntime_key(self)
+    }
+    fn gen(r: &mut Rng) -> Self {
+        gen_ntime(r)
+    }
+    fn specials() -> Vec<Self> {
+        vec![
+            chrono::NaiveTime::default(),
+            chrono::NaiveTime::from_num_seconds_from_midnight_opt(86_399, 1_999_999_999).unwrap(),
+            chrono::NaiveTime::from_num_seconds_from_midnight_opt(86_399, 999_999_999).unwrap(),
+        ]
+    }
+}
+
+fn ndt_key(x: &chrono::NaiveDateTime) -> (i32, u64) {
+    (x.date().num_days_from_ce(), ntime_key(&x.time()))
+}
+
+fn ndt_fp(x: &chrono::NaiveDateTime) -> u64 {
+    mix(x.date().num_days_from_ce() as u64, ntime_key(&x.time()))
+}
+
+impl Rt for chrono::NaiveDateTime {
+    const VARIANT: &'static str = "ChronoDateTime";
+    fn name() -> String {
+        "NaiveDateTime".into()
+    }
+    fn same(&self, o: &Self) -> bool {
+        ndt_key(self) == ndt_key(o)
+    }
+    fn fp(&self) -> u64 {
+        ndt_fp(self)
+    }
+    fn gen(r: &mut Rng) -> Self {
+        gen_ndt(r, 0)
+    }
+    fn specials() -> Vec<Self> {
+        vec![chrono::NaiveDateTime::default(), chrono::NaiveDateTime::MIN, chrono::NaiveDateTime::MAX]
+    }
+}
+
+impl Rt for chrono::DateTime<chrono::Utc> {
+    const VARIANT: &'static str = "ChronoDateTimeUtc";
+    fn name() -> String {
+        "DateTime<Utc>".into()
+    }
+    fn same(&self, o: &Self) -> bool {
+        ndt_key(&self.naive_utc()) == ndt_key(&o.naive_utc())
+    }
+    fn fp(&self) -> u64 {
+        ndt_fp(&self.naive_utc())
+    }
+    fn gen(r: &mut Rng) -> Self {
+        chrono::Utc.from_utc_datetime(&gen_ndt(r, 0))
+    }
+    fn specials() -> Vec<Self> {
+        vec![chrono::DateTime::<chrono::Utc>::default(), chrono::DateTime::<chrono::Utc>::MIN_UTC, chrono::DateTime::<chrono::Utc>::MAX_UTC]
+    }
+}
+
+fn gen_local(r: &mut Rng) -> chrono::DateTime<chrono::Local> {
+    // years 1..=9999 only: the generator (not the code under test) asks the tz database
+    let days = if r.coin() { r.range(693_596, 770_000) } else { r.range(366, 3_652_000) } as i32;
+    let d = chrono::NaiveDate::from_num_days_from_ce_opt(days).unwrap_or_default();
+    chrono::Local.from_utc_datetime(&chrono::NaiveDateTime::new(d, gen_ntime(r)))
+}
+
+impl Rt for chrono::DateTime<chrono::Local> {
+    const VARIANT: &'static str = "ChronoDateTimeLocal";
+    fn name() -> String {
+        "DateTime<Local>".into()
+    }
+    fn same(&self, o: &Self) -> bool {
+        ndt_key(&self.naive_utc()) == ndt_key(&o.naive_utc())
+            && self.offset().fix().local_minus_utc() == o.offset().fix().local_minus_utc()
+    }
+    fn fp(&self) -> u64 {
+        mix(ndt_fp(&self.naive_utc()), self.offset().fix().local_minus_utc() as u64)
+    }
+    fn gen(r: &mut Rng) -> Self {
+        gen_local(r)
+    }
+    fn specials() -> Vec<Self> {
+        vec![chrono::DateTime::<chrono::Local>::default()]
+    }
+}
+
+fn gen_fixed(r: &mut Rng) -> chrono::DateTime<chrono::FixedOffset> {
+    let secs = match r.below(4) {
+        0 => *r.pick(&[0, 1, -1, 3600, -3600, 86_399, -86_399, 19_800, 20_700, 45_900]),
+        1 => (r.range(-95, 95) * 900) as i32,
+        _ => r.range(-86_399, 86_399) as i32,
+    };
+    let off = chrono::FixedOffset::east_opt(secs).unwrap_or_else(|| chrono::FixedOffset::east_opt(0).unwrap());
+    off.from_utc_datetime(&gen_ndt(r, 3))
+}
+
+impl Rt for chrono::DateTime<chrono::FixedOffset> {
+    const VARIANT: &'static str = "ChronoDateTimeWithTimeZone";
+    fn name() -> String {
+        "DateTime<FixedOffset>".into()
+    }
+    fn same(&self, o: &Self) -> bool {
+        ndt_key(&self.naive_utc()) == ndt_key(&o.naive_utc())
+            && self.offset().local_minus_utc() == o.offset().local_minus_utc()
+    }
+    fn fp(&self) -> u64 {
+        mix(ndt_fp(&self.naive_utc()), self.offset().local_minus_utc() as u64)
+    }
+    fn class(&self) -> &'static str {
+        if self.offset().local_minus_utc() == 0 {
+            "[offset 0]"
+        } else {
+            "[offset != 0]"
+        }
+    }
+    fn gen(r: &mut Rng) -> Self {
+        gen_fixed(r)
+    }
+    fn specials() -> Vec<Self> {
+        vec![
+            chrono::DateTime::<chrono::FixedOffset>::default(),
+            chrono::DateTime::parse_from_rfc3339("2020-01-01T02:02:02+08:00").unwrap(),
+            chrono::DateTime::parse_from_rfc3339("1969-12-31T23:59:60.5-23:59").unwrap_or_default(),
+        ]
+    }
+}
+
+// --- time ---------------------------------------------------------------------
+
+impl Rt for time::Date {
+    const VARIANT: &'static str = "TimeDate";
+    fn name() -> String {
+        "time::Date".into()
+    }
+    fn same(&self, o: &Self) -> bool {
+        self.to_julian_day() == o.to_julian_day()
+    }
+    fn fp(&self) -> u64 {
+        self.to_julian_day() as u64
+    }
+    fn gen(r: &mut Rng) -> Self {
+        gen_tdate(r)
+    }
+    fn specials() -> Vec<Self> {
+        vec![time::Date::MIN, time::Date::MAX, time::Date::from_julian_day(2_440_588).unwrap()]
+    }
+}
+
+fn ttime_key(t: &time::Time) -> u64 {
+    let (h, m, s, n) = t.as_hms_nano();
+    ((h as u64) << 48) | ((m as u64) << 40) | ((s as u64) << 32) | n as u64
+}
+
+impl Rt for time::Time {
+    const VARIANT: &'static str = "TimeTime";
+    fn name() -> String {
+        "time::Time".into()
+    }
+    fn same(&self, o: &Self) -> bool {
+        ttime_key(self) == ttime_key(o)
+    }
+    fn fp(&self) -> u64 {
+        ttime_key(self)
+    }
+    fn gen(r: &mut Rng) -> Self {
+        gen_ttime(r)
+    }
+    fn specials() -> Vec<Self> {
+        vec![time::Time::MIDNIGHT, time::Time::from_hms_nano(23, 59, 59, 999_999_999).unwrap()]
+    }
+}
+
+impl Rt for time::PrimitiveDateTime {
+    const VARIANT: &'static str = "TimeDateTime";
+    fn name() -> String {
+        "PrimitiveDateTime".into()
+    }
+    fn same(&self, o: &Self) -> bool {
+        self.date().to_julian_day() == o.date().to_julian_day() && ttime_key(&self.time()) == ttime_key(&o.time())
+    }
+    fn fp(&self) -> u64 {
+        mix(self.date().to_julian_day() as u64, ttime_key(&self.time()))
+    }
+    fn gen(r: &mut Rng) -> Self {
+        time::PrimitiveDateTime::new(gen_tdate(r), gen_ttime(r))
+    }
+    fn specials() -> Vec<Self> {
+        vec![time::PrimitiveDateTime::MIN, time::PrimitiveDateTime::MAX]
+    }
+}
+
+fn gen_odt(r: &mut Rng) -> time::OffsetDateTime {
+    let secs = match r.below(4) {
+        0 => *r.pick(&[0, 1, -1, 3600, -3600, 86_399, -86_399, 19_800]),
+        1 => (r.range(-95, 95) * 900) as i32,
+        _ => r.range(-86_399, 86_399) as i32,
+    };
+    let off = time::UtcOffset::from_whole_seconds(secs).unwrap_or(time::UtcOffset::UTC);
+    // stay two days away from the representable limits: only the generator needs that
+    let lo = time::Date::MIN.to_julian_day() + 2;
+    let hi = time::Date::MAX.to_julian_day() - 2;
+    let d = gen_tdate(r).to_julian_day().clamp(lo, hi);
+    time::PrimitiveDateTime::new(time::Date::from_julian_day(d).unwrap(), gen_ttime(r)).assume_offset(off)
+}
+
+impl Rt for time::OffsetDateTime {
+    const VARIANT: &'static str = "TimeDateTimeWithTimeZone";
+    fn name() -> String {
+        "OffsetDateTime".into()
+    }
+    fn same(&self, o: &Self) -> bool {
+        self.date().to_julian_day() == o.date().to_julian_day()
+            && ttime_key(&self.time()) == ttime_key(&o.time())
+            && self.offset().whole_seconds() == o.offset().whole_seconds()
+    }
+    fn fp(&self) -> u64 {
+        mix(
+            mix(self.date().to_julian_day() as u64, ttime_key(&self.time())),
+            self.offset().whole_seconds() as u64,
+        )
+    }
+    fn class(&self) -> &'static str {
+        if self.offset().whole_seconds() == 0 {
+            "[offset 0]"
+        } else {
+            "[offset != 0]"
+        }
+    }
+    fn gen(r: &mut Rng) -> Self {
+        gen_odt(r)
+    }
+    fn specials() -> Vec<Self> {
+        vec![time::OffsetDateTime::UNIX_EPOCH]
+    }
+}
+
+// --- decimals, uuid, net --------------------------------------------------------
+
+impl Rt for rust_decimal::Decimal {
+    const VARIANT: &'static str = "Decimal";
+    fn name() -> String {
+        "Decimal".into()
+    }
+    fn same(&self, o: &Self) -> bool {
+        self.serialize() == o.serialize()
+    }
+    fn fp(&self) -> u64 {
+        hash_bytes(&self.serialize())
+    }
+    fn show(&self) -> String {
+        format!("{:?} (bytes {:?})", self, self.serialize())
+    }
+    fn gen(r: &mut Rng) -> Self {
+        let (lo, mid, hi) = match r.below(4) {
+            0 => (gen_u64(r) as u32, 0, 0),
+            1 => (r.next_u32(), r.next_u32(), 0),
+            _ => (r.next_u32(), r.next_u32(), r.next_u32()),
+        };
+        rust_decimal::Decimal::from_parts(lo, mid, hi, r.coin(), r.below(29) as u32)
+    }
+    fn specials() -> Vec<Self> {
+        use rust_decimal::Decimal as D;
+        vec![
+            D::ZERO,
+            D::ONE,
+            D::MAX,
+            D::MIN,
+            D::from_parts(0, 0, 0, true, 0),
+            D::from_parts(0, 0, 0, false, 28),
+            D::from_parts(10, 0, 0, false, 1),
+            D::from_parts(100, 0, 0, false, 2),
+            D::from_parts(1, 0, 0, true, 28),
+        ]
+    }
+}
+
+fn bd_parts(x: &bigdecimal::BigDecimal) -> (Vec<u8>, i64) {
+    let (i, e) = x.as_bigint_and_exponent();
+    (i.to_signed_bytes_le(), e)
+}
+
+impl Rt for bigdecimal::BigDecimal {
+    const VARIANT: &'static str = "BigDecimal";
+    fn name() -> String {
+        "BigDecimal".into()
+    }
+    fn same(&self, o: &Self) -> bool {
+        bd_parts(self) == bd_parts(o)
+    }
+    fn fp(&self) -> u64 {
+        let (b, e) = bd_parts(self);
+        mix(hash_bytes(&b), e as u64)
+    }
+    fn show(&self) -> String {
+        let (i, e) = self.as_bigint_and_exponent();
+        clip(format!("{i} scale {e}"))
+    }
+    fn gen(r: &mut Rng) -> Self {
+        use bigdecimal::num_bigint::BigInt;
+        let n = match r.below(5) {
+            0 => 0,
+            1 => 1 + r.below(8),
+            2 => 1 + r.below(40),
+            _ => 1 + r.below(16),
+        };
+        let bytes: Vec<u8> = (0..n).map(|_| r.next_u64() as u8).collect();
+        let scale = match r.below(5) {
+            0 => 0,
+            1 => r.range(-40, 40),
+            2 => r.range(-100_000, 100_000),
+            3 => *r.pick(&[i64::MAX, i64::MIN, i64::MAX - 1, i64::MIN + 1, u32::MAX as i64, i32::MIN as i64]),
+            _ => r.range(0, 30),
+        };
+        bigdecimal::BigDecimal::new(BigInt::from_signed_bytes_le(&bytes), scale)
+    }
+    fn specials() -> Vec<Self> {
+        use bigdecimal::num_bigint::BigInt;
+        let b = |i: i64, s: i64| bigdecimal::BigDecimal::new(BigInt::from(i), s);
+        vec![b(0, 0), b(1, 0), b(10, 1), b(100, 2), b(1, -2), b(0, 5), b(-15, 1), b(i64::MIN, 30)]
+    }
+}
+
+impl Rt for uuid::Uuid {
+    const VARIANT: &'static str = "Uuid";
+    fn name() -> String {
+        "Uuid".into()
+    }
+    fn same(&self, o: &Self) -> bool {
+        self.as_u128() == o.as_u128()
+    }
+    fn fp(&self) -> u64 {
+        mix(self.as_u128() as u64, (self.as_u128() >> 64) as u64)
+    }
+    fn gen(r: &mut Rng) -> Self {
+        uuid::Uuid::from_u128(((r.next_u64() as u128) << 64) | r.next_u64() as u128)
+    }
+    fn specials() -> Vec<Self> {
+        vec![uuid::Uuid::nil(), uuid::Uuid::from_u128(u128::MAX), uuid::Uuid::from_u128(0x936DA01F_9ABD_4D9D_80C7_02AF85C822A8)]
+    }
+}
+
+macro_rules! rt_uuid_fmt {
+    ($t:ty, $label:literal, $conv:ident) => {
+        impl Rt for $t {
+            const VARIANT: &'static str = "Uuid";
+            fn name() -> String {
+                $label.into()
+            }
+            fn same(&self, o: &Self) -> bool {
+                self.as_uuid().as_u128() == o.as_uuid().as_u128()
+            }
+            fn fp(&self) -> u64 {
+                <uuid::Uuid as Rt>::fp(self.as_uuid())
+            }
+            fn gen(r: &mut Rng) -> Self {
+                <uuid::Uuid as Rt>::gen(r).$conv()
+            }
+            fn specials() -> Vec<Self> {
+                <uuid::Uuid as Rt>::specials().into_iter().map(|u| u.$conv()).collect()
+            }
+        }
+    };
+}
+rt_uuid_fmt!(uuid::fmt::Braced, "uuid::fmt::Braced", braced);
+rt_uuid_fmt!(uuid::fmt::Hyphenated, "uuid::fmt::Hyphenated", hyphenated);
+rt_uuid_fmt!(uuid::fmt::Simple, "uuid::fmt::Simple", simple);
+rt_uuid_fmt!(uuid::fmt::Urn, "uuid::fmt::Urn", urn);
+
+fn ip_key(x: &ipnetwork::IpNetwork) -> (u8, u128, u8) {
+    match x.ip() {
+        std::net::IpAddr::V4(a) => (4, u32::from(a) as u128, x.prefix()),
+        std::net::IpAddr::V6(a) => (6, u128::from(a), x.prefix()),
+    }
+}
+
+impl Rt for ipnetwork::IpNetwork {
+    const VARIANT: &'static str = "IpNetwork";
+    fn name() -> String {
+        "IpNetwork".into()
+    }
+    fn same(&self, o: &Self) -> bool {
+        ip_key(self) == ip_key(o)
+    }
+    fn fp(&self) -> u64 {
+        let (k, a, p) = ip_key(self);
+        mix(mix(a as u64, (a >> 64) as u64), ((k as u64) << 8) | p as u64)
+    }
+    fn class(&self) -> &'static str {
+        if self.is_ipv4() {
+            "[v4]"
+        } else {
+            "[v6]"
+        }
+    }
+    fn gen(r: &mut Rng) -> Self {
+        if r.coin() {
+            let a = std::net::Ipv4Addr::from(gen_u64(r) as u32);
+            ipnetwork::IpNetwork::V4(ipnetwork::Ipv4Network::new(a, r.below(33) as u8).unwrap())
+        } else {
+            let a = std::net::Ipv6Addr::from(((gen_u64(r) as u128) << 64) | r.next_u64() as u128);
+            ipnetwork::IpNetwork::V6(ipnetwork::Ipv6Network::new(a, r.below(129) as u8).unwrap())
+        }
+    }
+    fn specials() -> Vec<Self> {
+        vec![
+            "0.0.0.0".parse().unwrap(),
+            "255.255.255.255/0".parse().unwrap(),
+            "10.1.2.3/8".parse().unwrap(),
+            "::/0".parse().unwrap(),
+            "ffff:ffff:ffff:ffff:ffff:ffff:ffff:ffff/128".parse().unwrap(),
+            "::ffff:1.2.3.4/96".parse().unwrap(),
+        ]
+    }
+}
+
+impl Rt for mac_address::MacAddress {
+    const VARIANT: &'static str = "MacAddress";
+    fn name() -> String {
+        "MacAddress".into()
+    }
+    fn same(&self, o: &Self) -> bool {
+        self.bytes() == o.bytes()
+    }
+    fn fp(&self) -> u64 {
+        hash_bytes(&self.bytes())
+    }
+    fn gen(r: &mut Rng) -> Self {
+        let b = r.next_u64().to_le_bytes();
+        mac_address::MacAddress::new([b[0], b[1], b[2], b[3], b[4], b[5]])
+    }
+    fn specials() -> Vec<Self> {
+        vec![mac_address::MacAddress::new([0; 6]), mac_address::MacAddress::new([0xff; 6]), mac_address::MacAddress::new([1, 2, 3, 4, 5, 6])]
+    }
+}
+
+impl Rt for pgvector::Vector {
+    const VARIANT: &'static str = "Vector";
+    fn name() -> String {
+        "pgvector::Vector".into()
+    }
+    fn same(&self, o: &Self) -> bool {
+        let (a, b) = (self.as_slice(), o.as_slice());
+        a.len() == b.len() && a.iter().zip(b).all(|(x, y)| x.to_bits() == y.to_bits())
+    }
+    fn fp(&self) -> u64 {
+        let mut h = self.as_slice().len() as u64;
+        for f in self.as_slice() {
+            h = mix(h, f.to_bits() as u64);
+        }
+        h
+    }
+    fn class(&self) -> &'static str {
+        if self.as_slice().is_empty() {
+            "[empty]"
+        } else if self.as_slice().iter().any(|f| f.is_nan()) {
+            "[with NaN]"
+        } else {
+            "[finite or inf]"
+        }
+    }
+    fn gen(r: &mut Rng) -> Self {
+        let n = match r.below(20) {
+            0 => 0,
+            1 => r.below(2001),
+            _ => r.below(9),
+        };
+        pgvector::Vector::from((0..n).map(|_| gen_f32(r)).collect::<Vec<f32>>())
+    }
+    fn specials() -> Vec<Self> {
+        vec![pgvector::Vector::from(vec![]), pgvector::Vector::from(<f32 as Rt>::specials())]
+    }
+}
+
+// --- Vec<T> arrays and Option<T> ---------------------------------------------------
+
+impl<T: Elem> Rt for Vec<T> {
+    const VARIANT: &'static str = "Array";
+    const ARRAY: Option<&'static str> = Some(T::VARIANT);
+    fn name() -> String {
+        format!("Vec<{}>", T::name())
+    }
+    fn same(&self, o: &Self) -> bool {
+        self.len() == o.len() && self.iter().zip(o).all(|(a, b)| a.same(b))
+    }
+    fn fp(&self) -> u64 {
+        let mut h = self.len() as u64 ^ 0xA55A;
+        for e in self {
+            h = mix(h, e.fp());
+        }
+        h
+    }
+    fn class(&self) -> &'static str {
+        if self.is_empty() {
+            "[empty]"
+        } else {
+            "[non-empty]"
+        }
+    }
+    fn gen(r: &mut Rng) -> Self {
+        let n = match r.below(40) {
+            0 | 1 => 0,
+            2 => r.below(600),
+            _ => r.below(7),
+        };
+        (0..n).map(|_| T::gen(r)).collect()
+    }
+    fn specials() -> Vec<Self> {
+        vec![vec![], T::specials()]
+    }
+}
+
+/// Only used as tuple element (no `Nullable` for `Option<T>`).
+impl<T: Rt + Nullable> Rt for Option<T> {
+    const VARIANT: &'static str = T::VARIANT;
+    const ARRAY: Option<&'static str> = T::ARRAY;
+    fn name() -> String {
+        format!("Option<{}>", T::name())
+    }
+    fn same(&self, o: &Self) -> bool {
+        match (self, o) {
+            (None, None) => true,
+            (Some(a), Some(b)) => a.same(b),
+            _ => false,
+        }
+    }
+    fn fp(&self) -> u64 {
+        match self {
+            None => 0x4E4F_4E45,
+            Some(x) => mix(1, x.fp()),
+        }
+    }
+    fn gen(r: &mut Rng) -> Self {
+        if r.chance(1, 4) {
+            None
+        } else {
+            Some(T::gen(r))
+        }
+    }
+    fn specials() -> Vec<Self> {
+        vec![None]
+    }
+}
+
+macro_rules! elem_types {
+    ($m:ident) => {
+        $m!(bool);
+        $m!(i8);
+        $m!(i16);
+        $m!(i32);
+        $m!(i64);
+        $m!(u16);
+        $m!(u32);
+        $m!(u64);
+        $m!(f32);
+        $m!(f64);
+        $m!(char);
+        $m!(String);
+        $m!(Vec<u8>);
+        $m!(J);
+        $m!(chrono::NaiveDate);
+        $m!(chrono::NaiveTime);
+        $m!(chrono::NaiveDateTime);
+        $m!(chrono::DateTime<chrono::Utc>);
+        $m!(chrono::DateTime<chrono::Local>);
+        $m!(chrono::DateTime<chrono::FixedOffset>);
+        $m!(time::Date);
+        $m!(time::Time);
+        $m!(time::PrimitiveDateTime);
+        $m!(time::OffsetDateTime);
+        $m!(rust_decimal::Decimal);
+        $m!(bigdecimal::BigDecimal);
+        $m!(uuid::Uuid);
+        $m!(uuid::fmt::Braced);
+        $m!(uuid::fmt::Hyphenated);
+        $m!(uuid::fmt::Simple);
+        $m!(uuid::fmt::Urn);
+        $m!(ipnetwork::IpNetwork);
+        $m!(mac_address::MacAddress);
+    };
+}
+
+macro_rules! impl_elem {
+    ($t:ty) => {
+        impl Elem for $t {}
+    };
+}
+elem_types!(impl_elem);
+
+// ---------------------------------------------------------------------------
+// Driver plumbing
+// ---------------------------------------------------------------------------
+
+struct Viol {
+    rule: &'static str,
+    sig: String,
+    detail: J,
+}
+
+fn viol(rule: &'static str, sig: String, detail: J) -> Viol {
+    Viol { rule, sig, detail }
+}
+
+struct Cx<'a> {
+    ctx: &'a Ctx,
+    rep: &'a mut Report,
+    phase: u64,
+    /// per-shard budget of fingerprints kept in the distinct set
+    budget: usize,
+    not_recorded: u64,
+}
+
+const PHASE_SHIFT: u32 = 36;
+
+#[derive(Clone, Copy)]
+struct Idx {
+    cur: u64,
+    end: u64,
+    step: u64,
+}
+
+impl Iterator for Idx {
+    type Item = u64;
+    fn next(&mut self) -> Option<u64> {
+        if self.cur >= self.end {
+            None
+        } else {
+            let c = self.cur;
+            self.cur = self.cur.saturating_add(self.step);
+            Some(c)
+        }
+    }
+}
+
+impl<'a> Cx<'a> {
+    fn next_phase(&mut self) -> u64 {
+        self.phase += 1;
+        self.phase << PHASE_SHIFT
+    }
+    fn replay_idx(&self, base: u64, count: u64) -> Option<Idx> {
+        self.ctx.replay.map(|(_, c)| {
+            if c >= base && c - base < count {
+                Idx { cur: c - base, end: c - base + 1, step: 1 }
+            } else {
+                Idx { cur: 0, end: 0, step: 1 }
+            }
+        })
+    }
+    /// local indices of a global enumeration of `count` cases that belong to this shard
+    fn sharded(&self, base: u64, count: u64) -> Idx {
+        if let Some(i) = self.replay_idx(base, count) {
+            return i;
+        }
+        let n = self.ctx.nshards;
+        let start = (self.ctx.shard + n - base % n) % n;
+        Idx { cur: start, end: count, step: n }
+    }
+    /// local indices of a per-shard random stream of `count` cases
+    fn per_shard(&self, base: u64, count: u64) -> Idx {
+        if let Some(i) = self.replay_idx(base, count) {
+            return i;
+        }
+        Idx { cur: 0, end: count, step: 1 }
+    }
+    fn nontrivial(&mut self, fp: u64) {
+        if self.rep.distinct.len() < self.budget {
+            self.rep.nontrivial(fp);
+        } else {
+            self.not_recorded += 1;
+        }
+    }
+    fn report(&mut self, n: u64, ty: &str, r: Result<Vec<Viol>, String>, input: &dyn Fn() -> String) {
+        match r {
+            Ok(vs) => {
+                for v in vs {
+                    let mut d = v.detail;
+                    if let J::Object(m) = &mut d {
+                        m.insert("type".into(), json!(ty));
+                        m.insert("input".into(), json!(input()));
+                    }
+                    self.rep.violation(v.rule, "-", v.sig, d, self.ctx.shard, n);
+                }
+            }
+            Err(p) => self.rep.violation(
+                "R.panic",
+                "-",
+                format!("{ty}: {}", panic_sig(&p)),
+                json!({"type": ty, "input": input(), "panic": p}),
+                self.ctx.shard,
+                n,
+            ),
+        }
+    }
+}
+
+/// Sequential random words with cheap random access: word `k` is the (k % BLK)-th
+/// draw of the stream `(name, k / BLK)`, so any single case can be regenerated.
+struct BlockRng<'a> {
+    ctx: &'a Ctx,
+    stream: String,
+    block: u64,
+    pos: u64,
+    rng: Rng,
+}
+
+const BLK: u64 = 4096;
+
+impl<'a> BlockRng<'a> {
+    fn new(ctx: &'a Ctx, stream: &str) -> Self {
+        BlockRng { ctx, stream: stream.to_string(), block: u64::MAX, pos: 0, rng: Rng::new(0) }
+    }
+    fn at(&mut self, k: u64) -> u64 {
+        let (b, p) = (k / BLK, k % BLK);
+        if b != self.block || p < self.pos {
+            self.rng = self.ctx.rng(&self.stream, b);
+            self.block = b;
+            self.pos = 0;
+        }
+        while self.pos < p {
+            self.rng.next_u64();
+            self.pos += 1;
+        }
+        self.pos += 1;
+        self.rng.next_u64()
+    }
+}
+
+// ---------------------------------------------------------------------------
+// The per-value checks (everything here runs inside `guard`)
+// ---------------------------------------------------------------------------
+
+fn shape_check<X: Rt>(v: &Value, name: &str, what: &str, want_null: bool, out: &mut Vec<Viol>) {
+    let vn = variant_name(v);
+    if vn != X::VARIANT {
+        out.push(viol(
+            "R.variant",
+            format!("{name} -> {what} gives {vn}"),
+            json!({"expected_variant": X::VARIANT, "got": show_value(v)}),
+        ));
+    }
+    let an = array_of(v);
+    if an != X::ARRAY {
+        out.push(viol(
+            "R.variant",
+            format!("{name} -> {what} gives ArrayType {}", an.unwrap_or("none")),
+            json!({"expected_array_type": X::ARRAY, "got": show_value(v)}),
+        ));
+    }
+    if is_null(v) != want_null {
+        out.push(viol(
+            "R.null",
+            format!("{name} -> {what} is {}", if want_null { "not NULL" } else { "NULL" }),
+            json!({"got": show_value(v)}),
+        ));
+    }
+}
+
+fn probe_plain<X: Rt>(x: &X, name: &str, out: &mut Vec<Viol>) {
+    let v: Value = x.clone().into();
+    shape_check::<X>(&v, name, "Value::from", false, out);
+    match <X as ValueType>::try_from(v.clone()) {
+        Ok(y) => {
+            if !y.same(x) {
+                out.push(viol(
+                    "R.roundtrip",
+                    format!("{name}{}: try_from(Value::from(x)) differs from x", x.class()),
+                    json!({"got": y.show(), "value": show_value(&v)}),
+                ));
+            }
+        }
+        Err(_) => out.push(viol(
+            "R.roundtrip",
+            format!("{name}{}: try_from(Value::from(x)) fails", x.class()),
+            json!({"value": show_value(&v)}),
+        )),
+    }
+    // Value::unwrap must agree with try_from (a panic here is reported as R.panic)
+    let y: X = v.clone().unwrap();
+    if !y.same(x) {
+        out.push(viol(
+            "R.roundtrip",
+            format!("{name}{}: Value::from(x).unwrap() differs from x", x.class()),
+            json!({"got": y.show(), "value": show_value(&v)}),
+        ));
+    }
+    // null-of-same-type and dummy value keep the variant
+    let d0 = discriminant(&v);
+    let nl = v.as_null();
+    if discriminant(&nl) != d0 {
+        out.push(viol(
+            "R.as_null",
+            format!("{name} -> as_null changes the discriminant to {}", variant_name(&nl)),
+            json!({"got": show_value(&nl)}),
+        ));
+    }
+    shape_check::<X>(&nl, name, "as_null", true, out);
+    if <X as ValueType>::try_from(nl.clone()).is_ok() {
+        out.push(viol("R.null", format!("{name}: NULL extracts as a present value"), json!({"value": show_value(&nl)})));
+    }
+    let dv = v.dummy_value();
+    if discriminant(&dv) != d0 {
+        out.push(viol(
+            "R.dummy",
+            format!("{name} -> dummy_value changes the discriminant to {}", variant_name(&dv)),
+            json!({"got": show_value(&dv)}),
+        ));
+    }
+    shape_check::<X>(&dv, name, "dummy_value", false, out);
+    if <X as ValueType>::try_from(dv.clone()).is_err() {
+        out.push(viol(
+            "R.dummy",
+            format!("{name}: dummy_value does not extract as {name}"),
+            json!({"value": show_value(&dv)}),
+        ));
+    }
+}
+
+fn probe_opt<X: Rt + Nullable>(x: &X, name: &str, out: &mut Vec<Viol>) {
+    let vs: Value = Some(x.clone()).into();
+    shape_check::<X>(&vs, name, "Value::from(Some)", false, out);
+    match <Option<X> as ValueType>::try_from(vs.clone()) {
+        Ok(Some(y)) => {
+            if !y.same(x) {
+                out.push(viol(
+                    "R.option",
+                    format!("Option<{name}>{}: Some(x) extracts as a different value", x.class()),
+                    json!({"got": y.show(), "value": show_value(&vs)}),
+                ));
+            }
+        }
+        Ok(None) => out.push(viol(
+            "R.option",
+            format!("Option<{name}>{}: Some(x) extracts as None", x.class()),
+            json!({"value": show_value(&vs)}),
+        )),
+        Err(_) => out.push(viol(
+            "R.option",
+            format!("Option<{name}>{}: Some(x) fails to extract", x.class()),
+            json!({"value": show_value(&vs)}),
+        )),
+    }
+    // Some(x) is stored exactly like x
+    match <X as ValueType>::try_from(vs) {
+        Ok(y) if y.same(x) => {}
+        _ => out.push(viol(
+            "R.option",
+            format!("{name}{}: Value::from(Some(x)) does not extract as x", x.class()),
+            json!({}),
+        )),
+    }
+    // and a plain x can be read as a present optional
+    let v: Value = x.clone().into();
+    match <Option<X> as ValueType>::try_from(v.clone()) {
+        Ok(Some(y)) if y.same(x) => {}
+        Ok(None) => out.push(viol(
+            "R.option",
+            format!("Option<{name}>{}: present value extracts as None", x.class()),
+            json!({"value": show_value(&v)}),
+        )),
+        _ => out.push(viol(
+            "R.option",
+            format!("Option<{name}>{}: present value does not extract as Some(x)", x.class()),
+            json!({"value": show_value(&v)}),
+        )),
+    }
+    // the NULL of the value's own variant reads back as absent
+    match <Option<X> as ValueType>::try_from(v.as_null()) {
+        Ok(None) => {}
+        _ => out.push(viol(
+            "R.option",
+            format!("Option<{name}>: as_null() of a value does not extract as None"),
+            json!({"value": show_value(&v.as_null())}),
+        )),
+    }
+}
+
+fn probe<X: Rt + Nullable>(x: &X, name: &str) -> Vec<Viol> {
+    let mut out = Vec::new();
+    probe_plain(x, name, &mut out);
+    probe_opt(x, name, &mut out);
+    out
+}
+
+/// `None::<X>` — once per type.
+fn probe_none<X: Rt + Nullable>(name: &str) -> Vec<Viol> {
+    let mut out = Vec::new();
+    let vn: Value = Option::<X>::None.into();
+    shape_check::<X>(&vn, name, "Value::from(None)", true, &mut out);
+    let nl = <X as Nullable>::null();
+    shape_check::<X>(&nl, name, "Nullable::null", true, &mut out);
+    match <Option<X> as ValueType>::try_from(vn.clone()) {
+        Ok(None) => {}
+        Ok(Some(_)) => out.push(viol("R.option", format!("Option<{name}>: None extracts as Some"), json!({}))),
+        Err(_) => out.push(viol("R.option", format!("Option<{name}>: None fails to extract"), json!({}))),
+    }
+    if <X as ValueType>::try_from(vn.clone()).is_ok() {
+        out.push(viol("R.null", format!("{name}: NULL extracts as a present value"), json!({})));
+    }
+    if guard(|| vn.clone().unwrap::<X>()).is_ok() {
+        out.push(viol("R.null", format!("{name}: unwrap of NULL does not panic"), json!({})));
+    }
+    let o: Option<X> = vn.clone().unwrap();
+    if o.is_some() {
+        out.push(viol("R.option", format!("Option<{name}>: unwrap of NULL gives Some"), json!({})));
+    }
+    let d0 = discriminant(&vn);
+    let a = vn.as_null();
+    if discriminant(&a) != d0 {
+        out.push(viol("R.as_null", format!("{name} -> as_null changes the discriminant to {}", variant_name(&a)), json!({})));
+    }
+    shape_check::<X>(&a, name, "as_null", true, &mut out);
+    let dv = vn.dummy_value();
+    if discriminant(&dv) != d0 {
+        out.push(viol("R.dummy", format!("{name} -> dummy_value changes the discriminant to {}", variant_name(&dv)), json!({})));
+    }
+    shape_check::<X>(&dv, name, "dummy_value", false, &mut out);
+    out
+}
+
+/// Run one stream of values of type X. `mk(i)` maps a local index to a value.
+fn stream<X: Rt + Nullable>(cx: &mut Cx, sharded: bool, count: u64, mut mk: impl FnMut(u64) -> Option<X>) -> u64 {
+    let base = cx.next_phase();
+    let name = X::name();
+    let nh = hash_str(&name);
+    let idx = if sharded { cx.sharded(base, count) } else { cx.per_shard(base, count) };
+    let mut done = 0u64;
+    for i in idx {
+        let x = match mk(i) {
+            Some(x) => x,
+            None => continue,
+        };
+        let n = base + i;
+        cx.rep.eval();
+        let r = guard(|| probe(&x, &name));
+        match &r {
+            Ok(v) if v.is_empty() => {}
+            _ => cx.report(n, &name, r, &|| x.show()),
+        }
+        cx.nontrivial(mix(nh, x.fp()));
+        if done == 0 && cx.ctx.shard == 0 && cx.rep.samples.len() < cx.rep.max_samples {
+            cx.rep.sample(json!({"kind": "round-trip", "type": name, "value": x.show(), "case": n}));
+        }
+        done += 1;
+    }
+    cx.rep.count(&format!("roundtrip/{name}"), done);
+    cx.rep.count("roundtrips_total", done);
+    cx.rep.count("options_checked", done);
+    done
+}
+
+/// Specials + `None` + random values for one type.
+fn typed<X: Rt + Nullable>(cx: &mut Cx, quick: u64, thorough: u64) {
+    let name = X::name();
+    // None, as its own one-case phase (shard 0 in a normal run)
+    let base = cx.next_phase();
+    for i in cx.sharded(base, 1) {
+        cx.rep.eval();
+        let r = guard(|| probe_none::<X>(&name));
+        cx.report(base + i, &name, r, &|| "None".to_string());
+        cx.rep.count("options_checked", 1);
+        cx.rep.count("none_checked_types", 1);
+        cx.rep.note("types", name.clone());
+    }
+    let sp = guard(X::specials).unwrap_or_default();
+    let nsp = sp.len() as u64;
+    stream::<X>(cx, true, nsp, |i| sp.get(i as usize).cloned());
+    let per = cx.ctx.size(quick, thorough) / cx.ctx.nshards;
+    let ctx = cx.ctx;
+    let sname = format!("gen/{name}");
+    stream::<X>(cx, false, per, |k| {
+        let mut r = ctx.rng(&sname, k);
+        Some(X::gen(&mut r))
+    });
+}
+
+// ---------------------------------------------------------------------------
+// Cow<str> and borrowed sources (&str, &String, &[u8], Option<&str>)
+// ---------------------------------------------------------------------------
+
+fn borrowed(cx: &mut Cx) {
+    let base = cx.next_phase();
+    let per = cx.ctx.size(16_000, 800_000) / cx.ctx.nshards;
+    let mut done = 0;
+    for k in cx.per_shard(base, per) {
+        let mut r = cx.ctx.rng("borrowed", k);
+        let c = <Cow<'static, str> as Rt>::gen(&mut r);
+        let s = if k % 2 == 0 { c.to_string() } else { gen_string(&mut r) };
+        let b = gen_bytes(&mut r);
+        cx.rep.eval();
+        let res = guard(|| {
+            let mut out = Vec::new();
+            probe_plain(&c, "Cow<str>", &mut out);
+            let mut str_src = |what: &'static str, v: Value, want: &str| {
+                if variant_name(&v) != "String" || is_null(&v) {
+                    out.push(viol("R.variant", format!("{what} -> Value::from gives {}{}", variant_name(&v), if is_null(&v) { " NULL" } else { "" }), json!({})));
+                }
+                match <String as ValueType>::try_from(v.clone()) {
+                    Ok(y) if y.as_bytes() == want.as_bytes() => {}
+                    _ => out.push(viol("R.roundtrip", format!("{what}{}: does not extract as the same String", sclass(want)), json!({"value": show_value(&v)}))),
+                }
+                match <Cow<'_, str> as ValueType>::try_from(v.clone()) {
+                    Ok(y) if y.as_bytes() == want.as_bytes() => {}
+                    _ => out.push(viol("R.roundtrip", format!("{what}{}: does not extract as the same Cow<str>", sclass(want)), json!({"value": show_value(&v)}))),
+                }
+                match <Option<String> as ValueType>::try_from(v) {
+                    Ok(Some(y)) if y.as_bytes() == want.as_bytes() => {}
+                    _ => out.push(viol("R.option", format!("{what}{}: does not extract as Some(String)", sclass(want)), json!({}))),
+                }
+            };
+            str_src("&str", Value::from(s.as_str()), &s);
+            str_src("&String", Value::from(&s), &s);
+            str_src("Option<&str>", Value::from(Some(s.as_str())), &s);
+            str_src("Cow<str>", Value::from(c.clone()), &c);
+            str_src("Cow::Borrowed", Value::from(Cow::Borrowed(s.as_str())), &s);
+            let nn = Value::from(None::<&str>);
+            if variant_name(&nn) != "String" || !is_null(&nn) {
+                out.push(viol("R.option", format!("Option<&str>: None gives {}", variant_name(&nn)), json!({})));
+            }
+            let nn2 = <&str as Nullable>::null();
+            if variant_name(&nn2) != "String" || !is_null(&nn2) {
+                out.push(viol("R.option", format!("<&str as Nullable>::null gives {}", variant_name(&nn2)), json!({})));
+            }
+            if !matches!(<Option<String> as ValueType>::try_from(nn.clone()), Ok(None)) {
+                out.push(viol("R.option", "Option<&str>: None does not extract as None::<String>".to_string(), json!({})));
+            }
+            if <Cow<'_, str> as ValueType>::try_from(nn).is_ok() {
+                out.push(viol("R.null", "Cow<str>: NULL extracts as a present value".to_string(), json!({})));
+            }
+            let vb = Value::from(b.as_slice());
+            if variant_name(&vb) != "Bytes" || is_null(&vb) {
+                out.push(viol("R.variant", format!("&[u8] -> Value::from gives {}", variant_name(&vb)), json!({})));
+            }
+            match <Vec<u8> as ValueType>::try_from(vb) {
+                Ok(y) if y == b => {}
+                _ => out.push(viol("R.roundtrip", "&[u8]: does not extract as the same Vec<u8>".to_string(), json!({}))),
+            }
+            out
+        });
+        match &res {
+            Ok(v) if v.is_empty() => {}
+            _ => cx.report(base + k, "borrowed", res, &|| clip(format!("{s:?} / {} bytes", b.len()))),
+        }
+        cx.nontrivial(mix(hash_str("&str"), hash_str(&s)));
+        cx.nontrivial(mix(hash_str("Cow<str>"), hash_str(&c)));
+        cx.nontrivial(mix(hash_str("&[u8]"), hash_bytes(&b)));
+        done += 1;
+    }
+    for k in ["roundtrip/&str", "roundtrip/&String", "roundtrip/Option<&str>", "roundtrip/Cow<str>", "roundtrip/&[u8]"] {
+        cx.rep.count(k, done);
+    }
+    cx.rep.count("roundtrips_total", 5 * done);
+    cx.rep.count("options_checked", done);
+}
+
+// ---------------------------------------------------------------------------
+// (source value) x (target type) extraction matrix
+// ---------------------------------------------------------------------------
+
+struct Src {
+    label: String,
+    v: Value,
+    variant: &'static str,
+    array: Option<&'static str>,
+    null: bool,
+    enc: Vec<u8>,
+}
+
+struct Ext {
+    none: bool,
+    back: Vec<u8>,
+    shown: String,
+}
+
+struct Tgt {
+    label: String,
+    variant: &'static str,
+    array: Option<&'static str>,
+    opt: bool,
+    try_: fn(Value) -> Result<Ext, ()>,
+    unwrap_: fn(Value) -> Ext,
+    expect_: fn(Value) -> Ext,
+}
+
+fn ext<X: Rt>(x: X) -> Ext {
+    Ext { none: false, shown: x.show(), back: enc_v(&x.into()) }
+}
+
+fn ext_opt<X: Rt + Nullable>(x: Option<X>) -> Ext {
+    Ext {
+        none: x.is_none(),
+        shown: x.as_ref().map(|x| x.show()).unwrap_or_else(|| "None".into()),
+        back: enc_v(&x.into()),
+    }
+}
+
+fn t_try<X: Rt>(v: Value) -> Result<Ext, ()> {
+    <X as ValueType>::try_from(v).map(ext).map_err(|_| ())
+}
+fn t_unwrap<X: Rt>(v: Value) -> Ext {
+    ext(v.unwrap::<X>())
+}
+fn t_expect<X: Rt>(v: Value) -> Ext {
+    ext(v.expect::<X>("c12 expect"))
+}
+fn t_try_opt<X: Rt + Nullable>(v: Value) -> Result<Ext, ()> {
+    <Option<X> as ValueType>::try_from(v).map(ext_opt).map_err(|_| ())
+}
+fn t_unwrap_opt<X: Rt + Nullable>(v: Value) -> Ext {
+    ext_opt(v.unwrap::<Option<X>>())
+}
+fn t_expect_opt<X: Rt + Nullable>(v: Value) -> Ext {
+    ext_opt(v.expect::<Option<X>>("c12 expect"))
+}
+
+fn add_target<X: Rt>(tgts: &mut Vec<Tgt>) {
+    tgts.push(Tgt {
+        label: X::name(),
+        variant: X::VARIANT,
+        array: X::ARRAY,
+        opt: false,
+        try_: t_try::<X>,
+        unwrap_: t_unwrap::<X>,
+        expect_: t_expect::<X>,
+    });
+}
+
+fn add_sources<X: Rt>(srcs: &mut Vec<Src>, r: &mut Rng) {
+    let mut xs: Vec<X> = X::specials().into_iter().take(2).collect();
+    xs.push(X::gen(r));
+    for x in xs {
+        let v: Value = x.into();
+        srcs.push(Src { label: X::name(), enc: enc_v(&v), v, variant: X::VARIANT, array: X::ARRAY, null: false });
+    }
+}
+
+fn add_type<X: Rt + Nullable>(srcs: &mut Vec<Src>, tgts: &mut Vec<Tgt>, r: &mut Rng) {
+    add_sources::<X>(srcs, r);
+    let v: Value = Option::<X>::None.into();
+    srcs.push(Src {
+        label: format!("Option<{}>::None", X::name()),
+        enc: enc_v(&v),
+        v,
+        variant: X::VARIANT,
+        array: X::ARRAY,
+        null: true,
+    });
+    add_target::<X>(tgts);
+    tgts.push(Tgt {
+        label: format!("Option<{}>", X::name()),
+        variant: X::VARIANT,
+        array: X::ARRAY,
+        opt: true,
+        try_: t_try_opt::<X>,
+        unwrap_: t_unwrap_opt::<X>,
+        expect_: t_expect_opt::<X>,
+    });
+}
+
+fn build_matrix(ctx: &Ctx) -> (Vec<Src>, Vec<Tgt>) {
+    let mut srcs = vec![];
+    let mut tgts = vec![];
+    let mut r = ctx.rng_global("matrix", 0);
+    macro_rules! scalar_and_array {
+        ($t:ty) => {
+            add_type::<$t>(&mut srcs, &mut tgts, &mut r);
+            add_type::<Vec<$t>>(&mut srcs, &mut tgts, &mut r);
+        };
+    }
+    elem_types!(scalar_and_array);
+    add_type::<u8>(&mut srcs, &mut tgts, &mut r);
+    add_type::<pgvector::Vector>(&mut srcs, &mut tgts, &mut r);
+    add_sources::<Cow<'static, str>>(&mut srcs, &mut r);
+    add_target::<Cow<'static, str>>(&mut tgts);
+    // borrowed sources
+    let mut push = |label: &str, v: Value, variant: &'static str, null: bool| {
+        srcs.push(Src { label: label.into(), enc: enc_v(&v), v, variant, array: None, null });
+    };
+    push("&str", Value::from("borrowed é"), "String", false);
+    push("&String", Value::from(&String::from("ref")), "String", false);
+    push("Option<&str>", Value::from(Some("opt")), "String", false);
+    push("Option<&str>::None", Value::from(None::<&str>), "String", true);
+    push("&[u8]", Value::from(&b"\x00\xffab"[..]), "Bytes", false);
+    (srcs, tgts)
+}
+
+fn matrix(cx: &mut Cx) {
+    let base = cx.next_phase();
+    // the replayed case may be outside this phase: then skip building it
+    if let Some((_, c)) = cx.ctx.replay {
+        if c >> PHASE_SHIFT != base >> PHASE_SHIFT {
+            return;
+        }
+    }
+    let ctx = cx.ctx;
+    let (srcs, tgts) = match guard(|| build_matrix(ctx)) {
+        Ok(x) => x,
+        Err(p) => {
+            cx.rep.violation("R.panic", "-", format!("matrix sources: {}", panic_sig(&p)), json!({"panic": p}), ctx.shard, base);
+            return;
+        }
+    };
+    let (ns, nt) = (srcs.len() as u64, tgts.len() as u64);
+    let (mut cells, mut must_fail, mut must_ok) = (0u64, 0u64, 0u64);
+    for i in cx.sharded(base, ns * nt) {
+        let s = &srcs[(i / nt) as usize];
+        let t = &tgts[(i % nt) as usize];
+        let n = base + i;
+        cx.rep.eval();
+        cells += 1;
+        let compatible = s.variant == t.variant && s.array == t.array;
+        let want_ok = if t.opt { compatible } else { compatible && !s.null };
+        if want_ok {
+            must_ok += 1;
+        } else {
+            must_fail += 1;
+        }
+        let cell = format!("{} as {}", s.label, t.label);
+        let detail = |extra: J| json!({"source": show_value(&s.v), "target": t.label, "observed": extra});
+        let got = guard(|| (t.try_)(s.v.clone()));
+        let ok_flag = match &got {
+            Err(p) => {
+                // try_from itself must not panic, whatever the cell
+                cx.rep.violation("R.panic", "-", format!("{cell}: try_from panics: {}", panic_sig(p)), detail(json!(p)), ctx.shard, n);
+                None
+            }
+            Ok(Err(())) => {
+                if want_ok {
+                    cx.rep.violation("R.matrix", "-", format!("{cell}: extraction fails on the diagonal"), detail(json!("Err")), ctx.shard, n);
+                }
+                Some(false)
+            }
+            Ok(Ok(e)) => {
+                if !want_ok {
+                    cx.rep.violation("R.matrix", "-", format!("{cell}: extraction succeeds"), detail(json!(e.shown)), ctx.shard, n);
+                } else {
+                    if t.opt && e.none != s.null {
+                        let what = if s.null { "NULL extracts as Some" } else { "present value extracts as None" };
+                        cx.rep.violation("R.option", "-", format!("{cell}: {what}"), detail(json!(e.shown)), ctx.shard, n);
+                    }
+                    if e.back != s.enc {
+                        cx.rep.violation("R.matrix", "-", format!("{cell}: extracted value differs"), detail(json!(e.shown)), ctx.shard, n);
+                    }
+                }
+                Some(true)
+            }
+        };
+        // unwrap / expect panic exactly when try_from errs
+        if let Some(ok) = ok_flag {
+            for (what, f) in [("unwrap", t.unwrap_), ("expect", t.expect_)] {
+                let r = guard(|| f(s.v.clone()));
+                match (ok, r) {
+                    (true, Ok(e)) => {
+                        if e.back != s.enc && want_ok {
+                            cx.rep.violation("R.matrix", "-", format!("{cell}: {what} gives a different value"), detail(json!(e.shown)), ctx.shard, n);
+                        }
+                    }
+                    (false, Err(_)) => {}
+                    (true, Err(p)) => {
+                        cx.rep.violation("R.unwrap", "-", format!("{cell}: {what} panics although try_from succeeds"), detail(json!(p)), ctx.shard, n)
+                    }
+                    (false, Ok(e)) => {
+                        cx.rep.violation("R.unwrap", "-", format!("{cell}: {what} returns although try_from fails"), detail(json!(e.shown)), ctx.shard, n)
+                    }
+                }
+            }
+        }
+        if want_ok && !s.null {
+            cx.nontrivial(mix(hash_str(&cell), hash_bytes(&s.enc)));
+        }
+        if i == 7 * nt + 3 {
+            cx.rep.sample(json!({"kind": "matrix cell", "source": show_value(&s.v), "target": t.label,
+                "expected": if want_ok {"Ok"} else {"Err"}, "try_from_ok": ok_flag}));
+        }
+    }
+    cx.rep.count("matrix_cells", cells);
+    cx.rep.count("matrix_cells_must_fail", must_fail);
+    cx.rep.count("matrix_cells_must_succeed", must_ok);
+    cx.rep.max("max_matrix_sources", ns);
+    cx.rep.max("max_matrix_targets", nt);
+}
+
+// ---------------------------------------------------------------------------
+// Tuples
+// ---------------------------------------------------------------------------
+
+fn vt_shape(vt: &ValueTuple) -> String {
+    match vt {
+        ValueTuple::One(_) => "One".into(),
+        ValueTuple::Two(..) => "Two".into(),
+        ValueTuple::Three(..) => "Three".into(),
+        ValueTuple::Many(v) => format!("Many({})", v.len()),
+    }
+}
+
+/// One heterogeneous tuple of arity N (N >= 2): into_value_tuple, into_iter, from_value_tuple.
+macro_rules! tuple_case {
+    ($n:expr, $rng:expr; $($idx:tt : $T:ty),+) => {{
+        type Tup = ($($T,)+);
+        let t: Tup = ($(<$T as Rt>::gen($rng),)+);
+        let shown = clip(format!("{:?}", t));
+        let mut fp = $n as u64;
+        $( fp = mix(fp, t.$idx.fp()); )+
+        let r = guard(|| {
+            let mut out: Vec<Viol> = vec![];
+            let vt = t.clone().into_value_tuple();
+            let items: Vec<Value> = vt.clone().into_iter().collect();
+            if items.len() != $n {
+                out.push(viol("R.tuple", format!("arity {}: into_value_tuple().into_iter() yields {} items", $n, items.len()),
+                    json!({"shape": vt_shape(&vt)})));
+            }
+            $(
+                let want = enc_v(&Value::from(t.$idx.clone()));
+                if items.get($idx).map(enc_v).as_ref() != Some(&want) {
+                    out.push(viol("R.tuple", format!("arity {}: item {} of into_iter is not element {}", $n, $idx, $idx),
+                        json!({"shape": vt_shape(&vt), "got": items.get($idx).map(show_value)})));
+                }
+            )+
+            let back: Tup = FromValueTuple::from_value_tuple(t.clone());
+            $(
+                if !back.$idx.same(&t.$idx) {
+                    out.push(viol("R.tuple", format!("arity {}: from_value_tuple changes element {}", $n, $idx),
+                        json!({"got": back.$idx.show()})));
+                }
+            )+
+            let back2: Tup = FromValueTuple::from_value_tuple(vt);
+            $(
+                if !back2.$idx.same(&t.$idx) {
+                    out.push(viol("R.tuple", format!("arity {}: from_value_tuple(ValueTuple) changes element {}", $n, $idx),
+                        json!({"got": back2.$idx.show()})));
+                }
+            )+
+            out
+        });
+        (r, shown, fp)
+    }};
+}
+
+fn tuple_het(n: usize, r: &mut Rng) -> (Result<Vec<Viol>, String>, String, u64) {
+    match n {
+        1 => {
+            // arity 1 is a bare value
+            let t: i32 = <i32 as Rt>::gen(r);
+            let res = guard(|| {
+                let mut out = vec![];
+                let vt = t.into_value_tuple();
+                let items: Vec<Value> = vt.clone().into_iter().collect();
+                if items.len() != 1 || enc_v(&items[0]) != enc_v(&Value::from(t)) {
+                    out.push(viol("R.tuple", "arity 1: into_iter does not yield exactly the value".to_string(), json!({"shape": vt_shape(&vt)})));
+                }
+                let b: i32 = FromValueTuple::from_value_tuple(t);
+                let b2: i32 = FromValueTuple::from_value_tuple(vt);
+                if b != t || b2 != t {
+                    out.push(viol("R.tuple", "arity 1: from_value_tuple changes the value".to_string(), json!({"got": [b, b2]})));
+                }
+                out
+            });
+            (res, format!("{t:?}"), mix(1, t as u64))
+        }
+        2 => tuple_case!(2, r; 0: i32, 1: String),
+        3 => tuple_case!(3, r; 0: i32, 1: String, 2: f64),
+        4 => tuple_case!(4, r; 0: i32, 1: String, 2: f64, 3: u8),
+        5 => tuple_case!(5, r; 0: i32, 1: String, 2: f64, 3: u8, 4: bool),
+        6 => tuple_case!(6, r; 0: i32, 1: String, 2: f64, 3: u8, 4: bool, 5: Option<i64>),
+        7 => tuple_case!(7, r; 0: i32, 1: String, 2: f64, 3: u8, 4: bool, 5: Option<i64>, 6: char),
+        8 => tuple_case!(8, r; 0: i32, 1: String, 2: f64, 3: u8, 4: bool, 5: Option<i64>, 6: char, 7: Vec<u8>),
+        9 => tuple_case!(9, r; 0: i32, 1: String, 2: f64, 3: u8, 4: bool, 5: Option<i64>, 6: char, 7: Vec<u8>, 8: u16),
+        10 => tuple_case!(10, r; 0: i32, 1: String, 2: f64, 3: u8, 4: bool, 5: Option<i64>, 6: char, 7: Vec<u8>, 8: u16, 9: f32),
+        11 => tuple_case!(11, r; 0: i32, 1: String, 2: f64, 3: u8, 4: bool, 5: Option<i64>, 6: char, 7: Vec<u8>, 8: u16, 9: f32, 10: Vec<i16>),
+        _ => tuple_case!(12, r; 0: i32, 1: String, 2: f64, 3: u8, 4: bool, 5: Option<i64>, 6: char, 7: Vec<u8>, 8: u16, 9: f32, 10: Vec<i16>, 11: u64),
+    }
+}
+
+/// Homogeneous tuples: same element type everywhere, so only position can tell elements apart.
+fn tuple_hom(n: usize, r: &mut Rng) -> (Result<Vec<Viol>, String>, String, u64) {
+    match n {
+        1 => tuple_het(1, r),
+        2 => tuple_case!(2, r; 0: i64, 1: i64),
+        3 => tuple_case!(3, r; 0: i64, 1: i64, 2: i64),
+        4 => tuple_case!(4, r; 0: i64, 1: i64, 2: i64, 3: i64),
+        5 => tuple_case!(5, r; 0: i64, 1: i64, 2: i64, 3: i64, 4: i64),
+        6 => tuple_case!(6, r; 0: i64, 1: i64, 2: i64, 3: i64, 4: i64, 5: i64),
+        7 => tuple_case!(7, r; 0: i64, 1: i64, 2: i64, 3: i64, 4: i64, 5: i64, 6: i64),
+        8 => tuple_case!(8, r; 0: i64, 1: i64, 2: i64, 3: i64, 4: i64, 5: i64, 6: i64, 7: i64),
+        9 => tuple_case!(9, r; 0: i64, 1: i64, 2: i64, 3: i64, 4: i64, 5: i64, 6: i64, 7: i64, 8: i64),
+        10 => tuple_case!(10, r; 0: i64, 1: i64, 2: i64, 3: i64, 4: i64, 5: i64, 6: i64, 7: i64, 8: i64, 9: i64),
+        11 => tuple_case!(11, r; 0: i64, 1: i64, 2: i64, 3: i64, 4: i64, 5: i64, 6: i64, 7: i64, 8: i64, 9: i64, 10: i64),
+        _ => tuple_case!(12, r; 0: i64, 1: i64, 2: i64, 3: i64, 4: i64, 5: i64, 6: i64, 7: i64, 8: i64, 9: i64, 10: i64, 11: i64),
+    }
+}
+
+macro_rules! i32_of {
+    ($idx:tt) => {
+        i32
+    };
+}
+
+/// extraction of a ValueTuple as a tuple of i32 of the given arity
+macro_rules! hom_target {
+    ($($idx:tt),+) => {{
+        fn f(vt: ValueTuple) -> Vec<i32> {
+            let t: ($(i32_of!($idx),)+) = FromValueTuple::from_value_tuple(vt);
+            vec![$(t.$idx),+]
+        }
+        f as fn(ValueTuple) -> Vec<i32>
+    }};
+}
+
+fn hom_targets() -> Vec<(usize, fn(ValueTuple) -> Vec<i32>)> {
+    fn one(vt: ValueTuple) -> Vec<i32> {
+        let t: i32 = FromValueTuple::from_value_tuple(vt);
+        vec![t]
+    }
+    vec![
+        (1, one as fn(ValueTuple) -> Vec<i32>),
+        (2, hom_target!(0, 1)),
+        (3, hom_target!(0, 1, 2)),
+        (4, hom_target!(0, 1, 2, 3)),
+        (5, hom_target!(0, 1, 2, 3, 4)),
+        (6, hom_target!(0, 1, 2, 3, 4, 5)),
+        (7, hom_target!(0, 1, 2, 3, 4, 5, 6)),
+        (8, hom_target!(0, 1, 2, 3, 4, 5, 6, 7)),
+        (9, hom_target!(0, 1, 2, 3, 4, 5, 6, 7, 8)),
+        (10, hom_target!(0, 1, 2, 3, 4, 5, 6, 7, 8, 9)),
+        (11, hom_target!(0, 1, 2, 3, 4, 5, 6, 7, 8, 9, 10)),
+        (12, hom_target!(0, 1, 2, 3, 4, 5, 6, 7, 8, 9, 10, 11)),
+    ]
+}
+
+/// (label, canonical shape?, items, tuple)
+fn hom_sources() -> Vec<(String, bool, Vec<i32>, ValueTuple)> {
+    let mut out: Vec<(String, bool, Vec<i32>, ValueTuple)> = vec![];
+    let mut real = |n: usize, vt: ValueTuple| {
+        out.push((format!("{n}-tuple"), true, (0..n as i32).map(|i| 100 + i).collect(), vt));
+    };
+    real(1, 100i32.into_value_tuple());
+    real(2, (100i32, 101i32).into_value_tuple());
+    real(3, (100i32, 101i32, 102i32).into_value_tuple());
+    real(4, (100i32, 101i32, 102i32, 103i32).into_value_tuple());
+    real(5, (100i32, 101i32, 102i32, 103i32, 104i32).into_value_tuple());
+    real(6, (100i32, 101i32, 102i32, 103i32, 104i32, 105i32).into_value_tuple());
+    real(7, (100i32, 101i32, 102i32, 103i32, 104i32, 105i32, 106i32).into_value_tuple());
+    real(8, (100i32, 101i32, 102i32, 103i32, 104i32, 105i32, 106i32, 107i32).into_value_tuple());
+    real(9, (100i32, 101i32, 102i32, 103i32, 104i32, 105i32, 106i32, 107i32, 108i32).into_value_tuple());
+    real(10, (100i32, 101i32, 102i32, 103i32, 104i32, 105i32, 106i32, 107i32, 108i32, 109i32).into_value_tuple());
+    real(11, (100i32, 101i32, 102i32, 103i32, 104i32, 105i32, 106i32, 107i32, 108i32, 109i32, 110i32).into_value_tuple());
+    real(12, (100i32, 101i32, 102i32, 103i32, 104i32, 105i32, 106i32, 107i32, 108i32, 109i32, 110i32, 111i32).into_value_tuple());
+    // hand-built shapes, including non-canonical ones (Many of length 0..3, 13)
+    for k in 0..=13usize {
+        let items: Vec<i32> = (0..k as i32).map(|i| 200 + i).collect();
+        let vt = ValueTuple::Many(items.iter().map(|i| Value::from(*i)).collect());
+        out.push((format!("Many({k})"), k >= 4 && k <= 12, items, vt));
+    }
+    out.push(("One".into(), true, vec![300], ValueTuple::One(300i32.into())));
+    out.push(("Two".into(), true, vec![300, 301], ValueTuple::Two(300i32.into(), 301i32.into())));
+    out.push(("Three".into(), true, vec![300, 301, 302], ValueTuple::Three(300i32.into(), 301i32.into(), 302i32.into())));
+    out
+}
+
+fn tuples(cx: &mut Cx) {
+    // random heterogeneous / homogeneous tuples of every arity
+    let base = cx.next_phase();
+    let per = cx.ctx.size(96_000, 4_800_000) / cx.ctx.nshards;
+    let mut by_arity = [0u64; 13];
+    for k in cx.per_shard(base, per) {
+        let n = (k % 12) as usize + 1;
+        let hom = (k / 12) % 3 == 2;
+        let mut r = cx.ctx.rng("tuple", k);
+        cx.rep.eval();
+        let (res, shown, fp) = if hom { tuple_hom(n, &mut r) } else { tuple_het(n, &mut r) };
+        match &res {
+            Ok(v) if v.is_empty() => {}
+            _ => cx.report(base + k, &format!("tuple/{n}"), res, &|| shown.clone()),
+        }
+        cx.nontrivial(mix(hash_str("tuple"), mix(fp, hom as u64)));
+        by_arity[n] += 1;
+        if k == 11 {
+            cx.rep.sample(json!({"kind": "tuple", "arity": n, "value": shown}));
+        }
+    }
+    for n in 1..=12 {
+        cx.rep.count(&format!("tuple_arity/{n:02}"), by_arity[n]);
+    }
+    cx.rep.count("tuples_checked", by_arity.iter().sum());
+
+    // arity matrix: a source of arity n extracted as arity m
+    let base = cx.next_phase();
+    if let Some((_, c)) = cx.ctx.replay {
+        if c >> PHASE_SHIFT != base >> PHASE_SHIFT {
+            return;
+        }
+    }
+    let (srcs, tgts) = match guard(|| (hom_sources(), hom_targets())) {
+        Ok(x) => x,
+        Err(p) => {
+            cx.rep.violation("R.panic", "-", format!("tuple sources: {}", panic_sig(&p)), json!({"panic": p}), cx.ctx.shard, base);
+            return;
+        }
+    };
+    let nt = tgts.len() as u64;
+    let (mut cells, mut must_panic) = (0u64, 0u64);
+    for i in cx.sharded(base, srcs.len() as u64 * nt) {
+        let (label, canonical, items, vt) = &srcs[(i / nt) as usize];
+        let (m, f) = tgts[(i % nt) as usize];
+        cx.rep.eval();
+        cells += 1;
+        // arity and order of the source itself
+        let got_items: Vec<Vec<u8>> = guard(|| vt.clone().into_iter().map(|v| enc_v(&v)).collect()).unwrap_or_default();
+        let want_items: Vec<Vec<u8>> = items.iter().map(|i| enc_v(&Value::from(*i))).collect();
+        if got_items != want_items {
+            cx.rep.violation("R.tuple", "-", format!("{label}: into_iter loses arity or order"), json!({"items": items}), cx.ctx.shard, base + i);
+        }
+        let same_arity = items.len() == m;
+        if !same_arity {
+            must_panic += 1;
+        }
+        match guard(|| f(vt.clone())) {
+            Ok(got) => {
+                if !same_arity {
+                    cx.rep.violation("R.tuple-arity", "-", format!("{label} extracted as {m}-tuple returns instead of panicking"),
+                        json!({"items": items, "got": got}), cx.ctx.shard, base + i);
+                } else if &got != items {
+                    cx.rep.violation("R.tuple", "-", format!("{label} extracted as {m}-tuple changes elements"),
+                        json!({"items": items, "got": got}), cx.ctx.shard, base + i);
+                }
+            }
+            Err(p) => {
+                if same_arity && *canonical {
+                    cx.rep.violation("R.tuple", "-", format!("{label} extracted as {m}-tuple panics"),
+                        json!({"items": items, "panic": p}), cx.ctx.shard, base + i);
+                }
+            }
+        }
+    }
+    cx.rep.count("tuple_arity_cells", cells);
+    cx.rep.count("tuple_arity_cells_must_panic", must_panic);
+}
+
+// ---------------------------------------------------------------------------
+// as_null / dummy_value for every variant and ArrayType (hand-built values)
+// ---------------------------------------------------------------------------
+
+fn every_variant(r: &mut Rng) -> Vec<Value> {
+    let mut vs: Vec<Value> = vec![];
+    macro_rules! both {
+        ($t:ty) => {
+            vs.push(Value::from(<$t as Rt>::gen(r)));
+            vs.push(Value::from(Option::<$t>::None));
+        };
+    }
+    elem_types!(both);
+    both!(u8);
+    both!(pgvector::Vector);
+    for ty in all_array_types() {
+        vs.push(Value::Array(ty.clone(), None));
+        vs.push(Value::Array(ty.clone(), Some(Box::new(vec![]))));
+        // the element kind is irrelevant for as_null / dummy_value: use the scalars we have
+        let elem = vs.iter().find(|v| variant_name(v) == array_name(&ty) && !is_null(v)).cloned();
+        if let Some(e) = elem {
+            vs.push(Value::Array(ty.clone(), Some(Box::new(vec![e.clone(), e.as_null(), e]))));
+        }
+    }
+    vs
+}
+
+fn variants(cx: &mut Cx) {
+    let base = cx.next_phase();
+    if let Some((_, c)) = cx.ctx.replay {
+        if c >> PHASE_SHIFT != base >> PHASE_SHIFT {
+            return;
+        }
+    }
+    let ctx = cx.ctx;
+    let vs = match guard(|| every_variant(&mut ctx.rng_global("variants", 0))) {
+        Ok(v) => v,
+        Err(p) => {
+            cx.rep.violation("R.panic", "-", format!("variant list: {}", panic_sig(&p)), json!({"panic": p}), ctx.shard, base);
+            return;
+        }
+    };
+    // coverage of the list itself (harness self-check)
+    let covered: std::collections::BTreeSet<&str> = vs.iter().map(variant_name).collect();
+    let covered_arr: std::collections::BTreeSet<&str> = vs.iter().filter_map(array_of).collect();
+    if covered.len() != ALL_VARIANTS.len() || covered_arr.len() != all_array_types().len() {
+        cx.rep.inconclusive("variant list does not cover every variant / ArrayType");
+    }
+    let mut done = 0;
+    for i in cx.sharded(base, vs.len() as u64) {
+        let v = &vs[i as usize];
+        let label = match array_of(v) {
+            Some(a) => format!("Array<{a}>{}", if is_null(v) { " NULL" } else { "" }),
+            None => format!("{}{}", variant_name(v), if is_null(v) { " NULL" } else { "" }),
+        };
+        cx.rep.eval();
+        let r = guard(|| {
+            let mut out = vec![];
+            let a = v.as_null();
+            let d = v.dummy_value();
+            if discriminant(&a) != discriminant(v) || variant_name(&a) != variant_name(v) {
+                out.push(viol("R.as_null", format!("{label} -> as_null gives {}", variant_name(&a)), json!({"got": show_value(&a)})));
+            }
+            if array_of(&a) != array_of(v) {
+                out.push(viol("R.as_null", format!("{label} -> as_null gives ArrayType {}", array_of(&a).unwrap_or("none")), json!({"got": show_value(&a)})));
+            }
+            if !is_null(&a) {
+                out.push(viol("R.as_null", format!("{label} -> as_null is not NULL"), json!({"got": show_value(&a)})));
+            }
+            if discriminant(&d) != discriminant(v) || variant_name(&d) != variant_name(v) {
+                out.push(viol("R.dummy", format!("{label} -> dummy_value gives {}", variant_name(&d)), json!({"got": show_value(&d)})));
+            }
+            if array_of(&d) != array_of(v) {
+                out.push(viol("R.dummy", format!("{label} -> dummy_value gives ArrayType {}", array_of(&d).unwrap_or("none")), json!({"got": show_value(&d)})));
+            }
+            if is_null(&d) {
+                out.push(viol("R.dummy", format!("{label} -> dummy_value is NULL"), json!({"got": show_value(&d)})));
+            }
+            out
+        });
+        cx.report(base + i, &label, r, &|| show_value(v));
+        cx.rep.note("variants_as_null_dummy", label);
+        done += 1;
+    }
+    cx.rep.count("as_null_dummy_values", done);
+}
+
+// ---------------------------------------------------------------------------
+// Scalar streams
+// ---------------------------------------------------------------------------
+
+fn mantissas(bits: u32, extra: usize) -> Vec<u64> {
+    let mask = (1u64 << bits) - 1;
+    let mut m = vec![0, mask, 1 << (bits - 1), (1 << (bits - 1)) - 1, (1 << (bits - 1)) | 1, 1, 2, 3];
+    for k in 2..bits - 1 {
+        m.push(1 << k);
+    }
+    for k in 0..bits {
+        m.push(!(1u64 << k) & mask);
+    }
+    let mut s = 0xC12u64;
+    for _ in 0..extra {
+        m.push(splitmix(&mut s) & mask);
+    }
+    m
+}
+
+fn scalars(cx: &mut Cx) {
+    let ctx = cx.ctx;
+    // exhaustive small domains
+    stream::<bool>(cx, true, 2, |i| Some(i == 1));
+    stream::<i8>(cx, true, 1 << 8, |i| Some(i as u8 as i8));
+    stream::<u8>(cx, true, 1 << 8, |i| Some(i as u8));
+    stream::<i16>(cx, true, 1 << 16, |i| Some(i as u16 as i16));
+    stream::<u16>(cx, true, 1 << 16, |i| Some(i as u16));
+    let chars = stream::<char>(cx, true, 0x11_0000, |i| char::from_u32(i as u32));
+    cx.rep.count("exhaustive_chars", chars);
+    if ctx.shard == 0 && ctx.replay.is_none() {
+        cx.rep.exhaustive_parts.push("all values of bool, i8, u8, i16, u16 and all 1,112,064 char scalar values".into());
+    }
+    // 32/64-bit integers: boundaries come from `typed`, here the random bulk
+    let per = ctx.size(1_000_000, 100_000_000) / ctx.nshards;
+    let mut b = BlockRng::new(ctx, "i32");
+    stream::<i32>(cx, false, per, |k| Some(shape1(b.at(k)) as i32));
+    let mut b = BlockRng::new(ctx, "u32");
+    stream::<u32>(cx, false, per, |k| Some(shape1(b.at(k)) as u32));
+    let mut b = BlockRng::new(ctx, "i64");
+    stream::<i64>(cx, false, per, |k| Some(shape1(b.at(k)) as i64));
+    let mut b = BlockRng::new(ctx, "u64");
+    stream::<u64>(cx, false, per, |k| Some(shape1(b.at(k))));
+
+    // f32: every sign x exponent x 64 mantissas, then random bit patterns (quick) or all of them (thorough)
+    let m32 = mantissas(23, 13);
+    let n32 = m32.len() as u64;
+    stream::<f32>(cx, true, 2 * 256 * n32, |i| {
+        let (sign, exp, m) = (i & 1, (i >> 1) & 255, m32[(i >> 9) as usize]);
+        Some(f32::from_bits(((sign << 31) | (exp << 23) | m) as u32))
+    });
+    if ctx.quick() {
+        let per = (1u64 << 22) / ctx.nshards;
+        let mut b = BlockRng::new(ctx, "f32");
+        stream::<f32>(cx, false, per, |k| Some(f32::from_bits(b.at(k) as u32)));
+    } else {
+        stream::<f32>(cx, true, 1u64 << 32, |i| Some(f32::from_bits(i as u32)));
+        if ctx.shard == 0 && ctx.replay.is_none() {
+            cx.rep.exhaustive_parts.push("all 2^32 f32 bit patterns".into());
+        }
+    }
+    if ctx.shard == 0 && ctx.replay.is_none() {
+        cx.rep.exhaustive_parts.push(format!("f32: 2 signs x 256 exponents x {n32} mantissa patterns"));
+    }
+
+    // f64: every sign x exponent x mantissa pattern, then random bit patterns
+    let m64 = mantissas(52, 9);
+    let n64 = m64.len() as u64;
+    stream::<f64>(cx, true, 2 * 2048 * n64, |i| {
+        let (sign, exp, m) = (i & 1, (i >> 1) & 2047, m64[(i >> 12) as usize]);
+        Some(f64::from_bits((sign << 63) | (exp << 52) | m))
+    });
+    let per = ctx.size(1_000_000, 100_000_000) / ctx.nshards;
+    let mut b = BlockRng::new(ctx, "f64");
+    stream::<f64>(cx, false, per, |k| Some(f64::from_bits(b.at(k))));
+    if ctx.shard == 0 && ctx.replay.is_none() {
+        cx.rep.exhaustive_parts.push(format!("f64: 2 signs x 2048 exponents x {n64} mantissa patterns"));
+    }
+}
+
+pub fn check(ctx: &Ctx, rep: &mut Report) {
+    let budget = (3_000_000 / ctx.nshards.max(1)) as usize;
+    let mut cx = Cx { ctx, rep, phase: 0, budget, not_recorded: 0 };
+    // NOTE: the order of the phases fixes the case numbering used by replays.
+    matrix(&mut cx);
+    tuples(&mut cx);
+    variants(&mut cx);
+
+    // generated values of every boxed / feature type (None, specials, random)
+    typed::<String>(&mut cx, 40_000, 2_000_000);
+    typed::<J>(&mut cx, 24_000, 1_200_000);
+    typed::<chrono::DateTime<chrono::FixedOffset>>(&mut cx, 24_000, 1_200_000);
+    typed::<bigdecimal::BigDecimal>(&mut cx, 24_000, 1_200_000);
+    typed::<Vec<u8>>(&mut cx, 24_000, 1_200_000);
+    typed::<chrono::NaiveDate>(&mut cx, 24_000, 1_200_000);
+    typed::<chrono::NaiveTime>(&mut cx, 24_000, 1_200_000);
+    typed::<chrono::NaiveDateTime>(&mut cx, 24_000, 1_200_000);
+    typed::<chrono::DateTime<chrono::Utc>>(&mut cx, 24_000, 1_200_000);
+    typed::<chrono::DateTime<chrono::Local>>(&mut cx, 16_000, 400_000);
+    typed::<time::Date>(&mut cx, 24_000, 1_200_000);
+    typed::<time::Time>(&mut cx, 24_000, 1_200_000);
+    typed::<time::PrimitiveDateTime>(&mut cx, 24_000, 1_200_000);
+    typed::<time::OffsetDateTime>(&mut cx, 24_000, 1_200_000);
+    typed::<rust_decimal::Decimal>(&mut cx, 40_000, 2_000_000);
+    typed::<uuid::Uuid>(&mut cx, 40_000, 2_000_000);
+    typed::<uuid::fmt::Braced>(&mut cx, 8_000, 200_000);
+    typed::<uuid::fmt::Hyphenated>(&mut cx, 8_000, 200_000);
+    typed::<uuid::fmt::Simple>(&mut cx, 8_000, 200_000);
+    typed::<uuid::fmt::Urn>(&mut cx, 8_000, 200_000);
+    typed::<ipnetwork::IpNetwork>(&mut cx, 24_000, 1_200_000);
+    typed::<mac_address::MacAddress>(&mut cx, 24_000, 1_200_000);
+    typed::<pgvector::Vector>(&mut cx, 16_000, 400_000);
+    borrowed(&mut cx);
+
+    // arrays of every element type
+    macro_rules! arrays {
+        ($t:ty) => {
+            typed::<Vec<$t>>(&mut cx, 6_400, 240_000);
+        };
+    }
+    elem_types!(arrays);
+
+    // scalar types: None + boundaries + a little random through the generic path ...
+    typed::<bool>(&mut cx, 800, 8_000);
+    typed::<i8>(&mut cx, 800, 8_000);
+    typed::<u8>(&mut cx, 800, 8_000);
+    typed::<i16>(&mut cx, 800, 8_000);
+    typed::<u16>(&mut cx, 800, 8_000);
+    typed::<char>(&mut cx, 8_000, 80_000);
+    typed::<i32>(&mut cx, 8_000, 80_000);
+    typed::<u32>(&mut cx, 8_000, 80_000);
+    typed::<i64>(&mut cx, 8_000, 80_000);
+    typed::<u64>(&mut cx, 8_000, 80_000);
+    typed::<f32>(&mut cx, 8_000, 80_000);
+    typed::<f64>(&mut cx, 8_000, 80_000);
+    // ... then the exhaustive and bulk streams
+    scalars(&mut cx);
+
+    let skipped = cx.not_recorded;
+    if skipped > 0 {
+        cx.rep.count("nontrivial_beyond_per_shard_budget", skipped);
+    }
+}
